@@ -17,7 +17,11 @@ SPEC = {
                    "is stored for a day is the harness's own record of what it wrote; the real listing only orders it. Per 20 slots: 5 merge cases (one day of 0-40 uploads, shuffled creation "
                    "order, pretty-printed / padded / trailing-garbage objects, 8% with one undecodable object, 6% of reports "
                    "64KiB..98KiB i.e. one merged line over bufio's 64KiB token, duplicate X incl. 0/-0/1e-320; observed: "
-                   "status, count in the response, the merged object line by line decoded, the real read-back), 1 hand-made "
+                   "status, count in the response, the merged object line by line decoded, the real read-back), 1 fd case (a day of 8-57 reports merged through buckets that count open readers/writers, with either a budget "
+                   "of 1-6 simultaneously open upload readers (open fails with EMFILE beyond it) or the process's real "
+                   "RLIMIT_NOFILE lowered to 6 descriptors above the highest one in use for the duration of the request; observed: "
+                   "status, count, merged records, peak readers open at once, readers/writers and /proc/self/fd entries left open "
+                   "after /merge/ and after a /chart/ of the day), 1 hand-made "
                    "merged object (blank lines, no final newline, junk, truncation), 10 chart cases (generated UploadConfig: "
                    "0-4 programs incl. cmd/ ones and duplicates, semver/go versions, counters a:{b,c} incl. names colliding "
                    "with GOOS/Version, 8% with a GoVersion goMajorMinor used to panic on (go1, g, empty: fixed by 48ba0d4); 1-8 days crossing month ends, 0-40 reports "
@@ -69,6 +73,7 @@ SPEC = {
         "encoding/json: an encoded report holds no raw newline, is not empty, and decodes to the same report (premises of C13_merge_one_line_per_object / C13_read_all; sampled by the merge cases)",
         "semver.Compare is a total preorder (then compareSemver is a strict total order: C13_compare_semver_order); version.Compare is a strict total order on the normalised go versions of the configuration (checked per case on the rank tables)",
         "sort.Slice returns a permutation of its input which is sorted whenever less is a strict total order on the distinct keys; ranging over a Go map visits every key exactly once in some order",
+        "descriptors: an open upload reader costs one descriptor; merge_fd models NewReader failing when none is free (EMFILE); the budget of the counting bucket applies to upload readers only",
         "storage: an object write (NewWriter, Write, Close) replaces the object (b_put); FSBucket is exercised against that model incl. rewrites with shorter content; the GCS bucket is not; the listing order of Objects(prefix) is a parameter (observed per merge)",
     ],
     "trusted_base": [],
